@@ -1260,7 +1260,6 @@ func checkBlockCommentLength(c *core.Ctx, p *load.Prog) {
 		why+": `/*/` would be accepted as a comment of 3 bytes and readBlockComment's slice panics")
 }
 
-
 // isEOFTest matches `<error variable> == io.EOF` and errors.Is(<error>, io.EOF).
 func isEOFTest(info *types.Info, e ast.Expr) bool {
 	e = ast.Unparen(e)
@@ -1276,7 +1275,6 @@ func isEOFTest(info *types.Info, e ast.Expr) bool {
 	}
 	return false
 }
-
 
 // checkPushbackOwners: R10. keepNextToken is the tokenizer's one-token
 // push-back. A parser function that clears it discards whatever a callee put
@@ -1324,7 +1322,6 @@ func checkPushbackOwners(c *core.Ctx, p *load.Prog) {
 	c.Count("pushback_flag_writes", n)
 	c.Floor("pushback_flag_writes", 2)
 }
-
 
 // isParamOf: v is a parameter (or the receiver) of fd.
 func isParamOf(info *types.Info, fd *ast.FuncDecl, v *types.Var) bool {
